@@ -1569,10 +1569,10 @@ theorem oSetFrequencies_ok (o : OSt ℝ) (h : Inv o.base) (v : List ℝ) (hv : V
   have hp := validOrdered_probs hv
   obtain ⟨b, e, hpr, _, hi⟩ := setFrequencies_ok o.base h (orderedToProbs v 1) hp
     (by rw [orderedToProbs_length, hl])
-  have hne : ¬ (v.length = 0 ∨ v.length ≠ o.base.dim) := by
-    have := h.dim_pos; omega
+  have hne : ¬ (v.length = 0) := by have := h.dim_pos; omega
+  have hne2 : ¬ (v.length ≠ o.base.dim) := by omega
   refine ⟨⟨b, v⟩, ?_, rfl, ⟨hi, ?_⟩, hpr⟩
-  · simp only [oSetFrequencies, hne, if_false, e]; rfl
+  · simp only [oSetFrequencies, hne, hne2, if_false, e]; rfl
   · show v = orderedValues b.probs 1
     rw [hpr, orderedValues_toProbs v 1 (le_refl _)]
 
@@ -1588,8 +1588,9 @@ theorem oConstruct_ok (v : List ℝ) (m : Nat) (a : Bool) (hm : ValidMethod m) (
   obtain ⟨o', e', hval, hoi, _⟩ := oSetFrequencies_ok ⟨s, v⟩ hi v hv hdim.symm
   refine ⟨o', ?_, hval, hoi, ?_⟩
   · simp only [oConstruct, e]; exact e'
-  · have hne : ¬ (v.length = 0 ∨ v.length ≠ s.dim) := by omega
-    simp only [oSetFrequencies, hne, if_false] at e'
+  · have hne : ¬ (v.length = 0) := by omega
+    have hne2 : ¬ (v.length ≠ s.dim) := by omega
+    simp only [oSetFrequencies, hne, hne2, if_false] at e'
     cases e1 : setFrequencies s (orderedToProbs v 1) with
     | error err => rw [e1] at e'; cases e'
     | ok b =>
